@@ -259,9 +259,9 @@ func sentinelLateRevoke(a dustArg) (*scenarioResult, error) {
 			return nil, err
 		}
 	}
-	// registration about 50 s into an epoch: the periodic revoke window (locked 200 s, open 100 s) then covers seconds 550..650,
-	// i.e. the last tenth of that epoch
-	for int(p.Height())%walk.EpochMomentums != 4 {
+	// registration about 350 s into an epoch: the periodic revoke window (locked 200 s, open 100 s) then covers seconds 550..650
+	// of the NEXT epoch, i.e. its last tenth, after both sentinels have been active for all of it
+	for int(p.Height())%walk.EpochMomentums != 34 {
 		if err := p.Produce(0); err != nil {
 			return nil, err
 		}
@@ -270,6 +270,9 @@ func sentinelLateRevoke(a dustArg) (*scenarioResult, error) {
 		if err := call("register", u, znn, constants.SentinelZnnRegisterAmount, definition.ABISentinel.PackMethodPanic(definition.RegisterSentinelMethodName)); err != nil {
 			return nil, err
 		}
+	}
+	if err := p.ProduceN(walk.EpochMomentums - 34 + 2); err != nil { // into the next epoch
+		return nil, err
 	}
 	for int(p.Height())%walk.EpochMomentums != 56+int(a.Seed%2) {
 		if err := p.Produce(0); err != nil {
